@@ -54,7 +54,8 @@ type Row struct {
 	K int    // 0 benchmark line, 1 label "A: B", 2 label removal "A:", 3 other text (ignored by the format)
 	A string // benchmark name without the "Benchmark" prefix / label key / the text
 	B string // rest of the benchmark line / label value
-	// Tab (benchmark lines only): the fields are separated by tabs, not blanks
+	// Tab: the fields of a benchmark line are separated by tabs, not blanks; a label value is
+	// preceded by two tabs instead of a blank
 	Tab bool
 }
 
@@ -126,6 +127,10 @@ func (r Row) text() string {
 		}
 		return "Benchmark" + r.A + " " + r.B
 	case 1:
+		if r.Tab {
+			// a tab-aligned label line: every blank and tab after the colon is separator
+			return r.A + ":\t\t" + r.B
+		}
 		return r.A + ": " + r.B
 	case 2:
 		return r.A + ":"
@@ -200,6 +205,25 @@ func canonLabels(l map[string]string) string {
 		b.WriteString(k + "=" + l[k] + ";")
 	}
 	return b.String()
+}
+
+// nameLabels is the reference for the labels a benchmark name contributes to the index.
+func nameLabels(name string) map[string]string {
+	out := map[string]string{}
+	if i := strings.LastIndexByte(name, '-'); i >= 0 && i+1 < len(name) && len(name)-i-1 <= 9 && strings.Trim(name[i+1:], "0123456789") == "" {
+		out["gomaxprocs"] = name[i+1:]
+		name = name[:i]
+	}
+	parts := strings.Split(name, "/")
+	out["name"] = parts[0]
+	for i := 1; i < len(parts); i++ {
+		if eq := strings.IndexByte(parts[i], '='); eq >= 0 {
+			out[parts[i][:eq]] = parts[i][eq+1:]
+		} else {
+			out["sub"+strconv.Itoa(i)] = parts[i]
+		}
+	}
+	return out
 }
 
 // nameLabelCount is the number of labels a benchmark name contributes (name,
@@ -885,6 +909,16 @@ func (k *checker) verifyState(when string, deadIDs []string, deadTags []string) 
 						continue
 					}
 					byLabel[[2]string{kk, vv}] = append(byLabel[[2]string{kk, vv}], line)
+				}
+				// labels derived from the benchmark name (not printed with the record, but indexed):
+				// name, gomaxprocs from a trailing -N, key=value and positional sub-parts
+				if fs := strings.Fields(r.line); len(fs) > 0 && strings.HasPrefix(fs[0], "Benchmark") {
+					for kk, vv := range nameLabels(strings.TrimPrefix(fs[0], "Benchmark")) {
+						if _, clash := l[kk]; clash || vv == "" || strings.ContainsAny(vv, "\"\\") {
+							continue
+						}
+						byLabel[[2]string{kk, vv}] = append(byLabel[[2]string{kk, vv}], line)
+					}
 				}
 			}
 			_ = i
